@@ -40,11 +40,12 @@ func goraceOpt(key string) string {
 func goraceWith(logPath string) string {
 	var out []string
 	for _, f := range strings.Fields(os.Getenv("GORACE")) {
-		if !strings.HasPrefix(f, "log_path=") {
+		if !strings.HasPrefix(f, "log_path=") && !strings.HasPrefix(f, "exitcode=") {
 			out = append(out, f)
 		}
 	}
-	out = append(out, "log_path="+logPath)
+	// exitcode=0: reports are judged from the log, not from the exit status
+	out = append(out, "exitcode=0", "log_path="+logPath)
 	return strings.Join(out, " ")
 }
 
